@@ -654,8 +654,173 @@ class Unroller:
             i += 1
 
 
+class _GiveUp(Exception):
+    pass
+
+
+_PURE_CALLS = {"len", "isinstance", "hasattr", "abs", "all", "any", "min", "max", "bool", "int", "float", "callable", "issubclass"}
+
+
+class Deflag:
+    """Flag elimination by path splitting.  A local that only ever holds the outcome of a test
+
+        ok = A and B            ->      if A and B:
+        if ok:                              S1
+            S1                              if X:
+            if X:                               S3
+                ok = False                  else:
+        if ok:                                  S2
+            S2                                  S3
+        S3                              else:
+                                            S3
+
+    is removed: each `if ok:` is decided where the flag's value is known (a constant after `ok = False`, the defining
+    test otherwise), the statements that follow are copied into both arms of a split.  Conditions: every store of the
+    flag is `flag = <constant bool>` or `flag = <pure test>` whose names are not assigned after it; every load is the
+    whole test of an `if flag:` / `if not flag:`; no occurrence inside a loop, try, with or nested function.  The rewrite
+    keeps behaviour (the defining test is pure and is evaluated at most once, where the flag is first consulted)."""
+
+    MAX_SPLITS = 12
+
+    def __init__(self):
+        self.count = 0
+
+    # -- candidates
+    def _flags(self, fnode):
+        params = set(_params(fnode))
+        stores, loads, bad = {}, {}, set()
+        if_tests = {}
+        parents = {}
+        for n in ast.walk(fnode):
+            for c in ast.iter_child_nodes(n):
+                parents[id(c)] = n
+        for n in ast.walk(fnode):
+            if isinstance(n, ast.If):
+                t = n.test
+                if isinstance(t, ast.Name):
+                    if_tests[id(t)] = True
+                elif isinstance(t, ast.UnaryOp) and isinstance(t.op, ast.Not) and isinstance(t.operand, ast.Name):
+                    if_tests[id(t.operand)] = True
+        for n in ast.walk(fnode):
+            if isinstance(n, (ast.Global, ast.Nonlocal)):
+                bad.update(n.names)
+            if not isinstance(n, ast.Name):
+                continue
+            if isinstance(n.ctx, ast.Load):
+                loads.setdefault(n.id, []).append(n)
+                if id(n) not in if_tests:
+                    bad.add(n.id)
+            else:
+                par = parents.get(id(n))
+                if isinstance(n.ctx, ast.Store) and isinstance(par, ast.Assign) and len(par.targets) == 1 and par.targets[0] is n:
+                    stores.setdefault(n.id, []).append(par)
+                else:
+                    bad.add(n.id)
+            # anything inside a loop / try / with / nested def is out of reach of the rewrite
+            q = parents.get(id(n))
+            while q is not None and q is not fnode:
+                if isinstance(q, (ast.For, ast.While, ast.Try, ast.With, ast.AsyncFor, ast.AsyncWith, ast.FunctionDef, ast.AsyncFunctionDef,
+                                  ast.Lambda, ast.ClassDef, ast.ListComp, ast.SetComp, ast.DictComp, ast.GeneratorExp)):
+                    bad.add(n.id)
+                    break
+                q = parents.get(id(q))
+        out = []
+        all_stores = {}
+        for n in ast.walk(fnode):
+            if isinstance(n, ast.Name) and isinstance(n.ctx, (ast.Store, ast.Del)):
+                all_stores.setdefault(n.id, []).append(n.lineno)
+            elif isinstance(n, ast.arg):
+                all_stores.setdefault(n.arg, []).append(0)
+        for b, sts in stores.items():
+            if b in bad or b in params or b not in loads:
+                continue
+            defs = [st for st in sts if not (isinstance(st.value, ast.Constant) and isinstance(st.value.value, bool))]
+            if len(defs) != 1 or len(sts) < 2:
+                # (a flag stored once is a plain single-use local: the fold pass deals with it)
+                if not (len(defs) == 1 and len(loads[b]) >= 2):
+                    continue
+            d = defs[0]
+            if not self._pure(d.value):
+                continue
+            # names of the defining test are not assigned after it
+            names = {x.id for x in ast.walk(d.value) if isinstance(x, ast.Name)}
+            if any(ln > d.lineno for nm in names for ln in all_stores.get(nm, [])):
+                continue
+            out.append(b)
+        return out
+
+    def _pure(self, e):
+        for x in ast.walk(e):
+            if isinstance(x, ast.Call):
+                f = ast.unparse(x.func)
+                if not (f in _PURE_CALLS or f.startswith(("np.", "numpy."))):
+                    return False
+            elif isinstance(x, (ast.Await, ast.Yield, ast.YieldFrom, ast.NamedExpr, ast.Lambda)):
+                return False
+        return True
+
+    # -- rewrite
+    def _rewrite(self, L, b, state, budget):
+        out = []
+        for i, st in enumerate(L):
+            if not any(isinstance(x, ast.Name) and x.id == b for x in ast.walk(st)):
+                out.append(st)
+                if isinstance(st, (ast.Return, ast.Raise)):
+                    return out
+                continue
+            rest = L[i + 1:]
+            if isinstance(st, ast.Assign) and len(st.targets) == 1 and isinstance(st.targets[0], ast.Name) and st.targets[0].id == b:
+                v = st.value
+                state = ("const", v.value) if isinstance(v, ast.Constant) and isinstance(v.value, bool) else ("expr", v)
+                continue
+            if not isinstance(st, ast.If):
+                raise _GiveUp
+            t = st.test
+            pol = True if (isinstance(t, ast.Name) and t.id == b) else \
+                (False if (isinstance(t, ast.UnaryOp) and isinstance(t.op, ast.Not) and isinstance(t.operand, ast.Name) and t.operand.id == b) else None)
+            if pol is None:
+                if any(isinstance(x, ast.Name) and x.id == b for x in ast.walk(t)):
+                    raise _GiveUp
+                budget[0] -= 1
+                if budget[0] < 0:
+                    raise _GiveUp
+                bt = self._rewrite(list(st.body) + copy.deepcopy(rest), b, state, budget)
+                bf = self._rewrite(list(st.orelse) + copy.deepcopy(rest), b, state, budget)
+                new = ast.If(test=t, body=bt or [ast.copy_location(ast.Pass(), st)], orelse=bf)
+                return out + [ast.copy_location(new, st)]
+            if state is None:
+                raise _GiveUp
+            if state[0] == "const":
+                taken = st.body if state[1] == pol else st.orelse
+                return out + self._rewrite(list(taken) + rest, b, state, budget)
+            budget[0] -= 1
+            if budget[0] < 0:
+                raise _GiveUp
+            on_true, on_false = (st.body, st.orelse) if pol else (st.orelse, st.body)
+            bt = self._rewrite(list(on_true) + copy.deepcopy(rest), b, ("const", True), budget)
+            bf = self._rewrite(list(on_false) + copy.deepcopy(rest), b, ("const", False), budget)
+            new = ast.If(test=copy.deepcopy(state[1]), body=bt or [ast.copy_location(ast.Pass(), st)], orelse=bf)
+            return out + [ast.copy_location(new, st)]
+        return out
+
+    def deflag_function(self, fnode):
+        for b in self._flags(fnode):
+            try:
+                new = self._rewrite(list(copy.deepcopy(fnode.body)), b, None, [self.MAX_SPLITS])
+            except _GiveUp:
+                continue
+            if any(isinstance(x, ast.Name) and x.id == b for st in new for x in ast.walk(st)):
+                continue
+            for st in new:
+                for x in ast.walk(st):
+                    if isinstance(x, ast.stmt) and not hasattr(x, "_orig"):
+                        x._orig = getattr(x, "lineno", None)
+            fnode.body = new or [ast.Pass()]
+            self.count += 1
+
+
 # ---------------------------------------------------------------------------------------------- views
-VIEWS = (("inline",), ("fold",), ("unroll",), ("inline", "unroll", "fold"))
+VIEWS = (("inline",), ("fold",), ("unroll",), ("deflag",), ("inline", "unroll", "deflag", "fold"))
 
 
 def _functions(ix, m):
@@ -669,12 +834,12 @@ def build_view(repo, passes):
     ix = Index(repo)
     out = tempfile.mkdtemp(prefix="verif-view-")
     shutil.copytree(os.path.join(repo, PKG), os.path.join(out, PKG), ignore=shutil.ignore_patterns("__pycache__", "*.pyc"))
-    inl, fol, unr = Inliner(ix), Folder(), Unroller()
+    inl, fol, unr, dfl = Inliner(ix), Folder(), Unroller(), Deflag()
     linemap = {}
     changed = 0
     dirty = set()
     for m in ix.modules.values():
-        before = inl.count + fol.count + unr.count
+        before = inl.count + fol.count + unr.count + dfl.count
         for n in ast.walk(m.tree):
             if isinstance(n, ast.stmt):
                 n._orig = n.lineno
@@ -686,11 +851,15 @@ def build_view(repo, passes):
             for n in ast.walk(m.tree):
                 if isinstance(n, (ast.FunctionDef, ast.AsyncFunctionDef)):
                     unr.unroll_function(n)
+        if "deflag" in passes:
+            for n in ast.walk(m.tree):
+                if isinstance(n, (ast.FunctionDef, ast.AsyncFunctionDef)):
+                    dfl.deflag_function(n)
         if "fold" in passes:
             for n in ast.walk(m.tree):
                 if isinstance(n, (ast.FunctionDef, ast.AsyncFunctionDef)):
                     fol.fold_function(n)
-        if inl.count + fol.count + unr.count != before:
+        if inl.count + fol.count + unr.count + dfl.count != before:
             dirty.add(m.name)
     # a private helper whose every call was inlined and that nothing else mentions any more: its statements now live in its
     # callers; the definition stays (rules may look it up by name) but findings located in it are duplicates (sa/cli.py)
@@ -725,7 +894,7 @@ def build_view(repo, passes):
         changed += 1
     with open(os.path.join(out, ".linemap.json"), "w") as f:
         json.dump(linemap, f)
-    return out, {"passes": list(passes), "modules_rewritten": changed, "helper_calls_inlined": inl.count, "locals_folded": fol.count, "loops_unrolled": unr.count,
+    return out, {"passes": list(passes), "modules_rewritten": changed, "helper_calls_inlined": inl.count, "locals_folded": fol.count, "loops_unrolled": unr.count, "flags_eliminated": dfl.count,
                  "fully_inlined": sorted(fully), "inlined_into": {k: sorted(v) for k, v in inl.into.items()}, "sites": inl.sites[:40]}
 
 
